@@ -70,8 +70,8 @@ def _find_occ(text, anchor, k, what):
 
 def _process_item(kind, head, sub, meta, occ=None):
     """kind in fn/fragment/arm; head = directive tail; sub = list of (directive, tail, lines)."""
-    parts = head.split()
-    rel, path = parts[0], parts[1]
+    rel, _, rest = head.partition(" ")
+    path = rest.split("`")[0].strip()   # the item path may contain spaces (`fmt::Display for Error::fmt`)
     src, m = repo_file(rel)
     f = R.find_fn(src, m, path)
     what = f"{rel}::{path}"
